@@ -250,6 +250,16 @@ def _scenarios(ctx, n_scen, n_req):
             cores = rng.choice(next(c for cl, w, c in t['pool_cores'] if cl == cloud and w == wt))
             pools.append(dict(name=f'pool{pi}', cloud=cloud, worker_type=wt, worker_cores=cores, preemptible=rng.random() < 0.7,
                               label=rng.choice(labels[:2] if rng.random() < 0.8 else labels), local_ssd=rng.random() < 0.5, ext_ssd=rng.choice([0, 100, 375])))
+        if pools and rng.random() < 0.4:
+            # two pools of one worker type (same cloud / preemptibility / label) with different worker sizes, in either order:
+            # a request must be tried against EVERY matching pool
+            p0 = rng.choice(pools)
+            sizes = [c for c in next(c for cl, w, c in t['pool_cores'] if cl == p0['cloud'] and w == p0['worker_type']) if c != p0['worker_cores']]
+            if sizes:
+                twin = dict(p0, name=f'pool{len(pools)}', worker_cores=rng.choice(sizes))
+                pools.insert(rng.randint(0, len(pools)), twin)
+                for pi, q in enumerate(pools):
+                    q['name'] = f'pool{pi}'
         reqs = []
         for _ in range(n_req):
             cloud = main_cloud if rng.random() < 0.9 else ('azure' if main_cloud == 'gcp' else 'gcp')
@@ -264,6 +274,11 @@ def _scenarios(ctx, n_scen, n_req):
                 r['cores'] = c
                 if kind == 'wt':
                     wt = rng.choice(wts[cloud])
+                    same = [q for q in pools if q['cloud'] == cloud]
+                    if same and rng.random() < 0.5:      # aim at a configured pool (its label and preemptibility too)
+                        q = rng.choice(same)
+                        wt = q['worker_type']
+                        r['label'], r['preemptible'] = q['label'], q['preemptible']
                     r['worker_type'] = wt
                     r['memory'] = c * _mpc_of(t, cloud, wt) * MIB // 1000
                 else:
